@@ -34,6 +34,15 @@ import json,sys
 o=json.load(open(sys.argv[1])); o["Replace"][sys.argv[2]]=sys.argv[3]; json.dump(o,open(sys.argv[1],"w"),indent=1)
 PY
 go build "${MODARGS[@]}" -tags verif -overlay "$WORK/ov/overlay.json" -o "$WORK/vcheck" ./cmd/vcheck >"$WORK/build.log" 2>&1 || { cat "$WORK/build.log" >&2; echo "machinery error: checker did not build against $REPO" >&2; exit 2; }
+# supplementary race-detector pass (engine/common/race.go): a second build of the same
+# checker with -race, run free-running by the checker itself
+if [ -e "$VERIF/engine/props/$PKG/.racepass" ] && [ -z "${VERIF_NO_RACEPASS:-}" ]; then
+  if go build "${MODARGS[@]}" -race -tags verif -overlay "$WORK/ov/overlay.json" -o "$WORK/vcheck-race" ./cmd/vcheck >"$WORK/build-race.log" 2>&1; then
+    export VERIF_RACEBIN="$WORK/vcheck-race"
+  else
+    cat "$WORK/build-race.log" >&2; echo "machinery error: -race build of the checker failed" >&2; exit 2
+  fi
+fi
 export VERIF_SITES="$WORK/ov/sites.json"
 "$WORK/vcheck" -prop "$ID" -tier "$TIER" -repo "$REPO" "$@"
 rc=$?
